@@ -14,7 +14,7 @@ import tornado.web, tornado.httpserver  # noqa: E401  (from $VERIF_REPO, see har
 
 ID = "C02"
 LEAN_TARGETS = ["TornadoModel.C02.Props"]
-THEOREMS = ["TornadoModel.C02.stub"]
+THEOREMS = ["TornadoModel.C02.chunk_wire_roundtrip", "TornadoModel.C02.identity_coding", "TornadoModel.C02.content_length_text_roundtrip"]
 TRUSTED = [
     "the reading of 'a strict HTTP/1.1 client' into Spec.clientParse (C02/Spec.lean, ~150 lines)",
     "fake transport + virtual loop (writes complete immediately; the response path does not depend on write timing)",
